@@ -120,7 +120,7 @@ Section B.
 
   Lemma l_instance_kept (bin : binop -> V -> V -> V) (md : mode V) (n n' : node) (sp : list (nat * spec V)) (args : nat -> option V) :
     wf V n -> keeps_ids V md -> lpass md n = Ok (n', sp) ->
-    inst V bin args n' = inst V bin args n.
+    inst V bin un args n' = inst V bin un args n.
   Proof. apply instance_kept. Qed.
 End B.
 
